@@ -313,15 +313,72 @@ def pairwise(names, rng):
     return rows
 
 
+def covering(names, strength, rng):
+    """greedy covering array of the given strength over boolean factors -> list of dicts"""
+    need = set()
+    for combo in itertools.combinations(names, strength):
+        for vals in itertools.product((False, True), repeat=strength):
+            need.add(tuple(zip(combo, vals)))
+    rows = []
+    while need:
+        best, best_cov = None, -1
+        pool = sorted(need)
+        for _ in range(40):
+            row = {n: rng.random() < 0.5 for n in names}
+            for n, v in rng.choice(pool):
+                row[n] = v
+            cov = sum(1 for t in need if all(row[n] == v for n, v in t))
+            if cov > best_cov:
+                best, best_cov = row, cov
+        rows.append(best)
+        need = {t for t in need if not all(best[n] == v for n, v in t)}
+    return rows
+
+
+# the conjunctions of Go options under which the method templates CALL a method of another type
+# (coq/Model/GoDecl.v common_methods): each is combined with every other option switched off
+GO_CALL_CONDITIONS = (
+    {"go.generate_json_marshaller": True, "go.generate_strict_unmarshaller": True, "go.skip_runtime": False},
+    {"go.generate_equal": True},
+    {"go.generate_validate": True, "go.skip_runtime": False},
+    {"builders": True, "go.skip_runtime": False},
+)
+
+
+def targeted_go_vectors(rng):
+    rows = []
+    for cond in GO_CALL_CONDITIONS:
+        for x in GO_FLAGS:
+            if x in cond:
+                continue
+            row = {n: rng.random() < 0.5 for n in GO_FLAGS}
+            row.update(cond)
+            row[x] = False
+            rows.append(row)
+    return rows
+
+
 def flag_sets(tier, rng):
+    """quick: 3-way covering of the Go options + the targeted vectors, each completed by a row of a pairwise array of
+    the other options; thorough: all 128 Go vectors x the pairwise array"""
+    others = pairwise(list(OTHER_FLAGS), rng)
     if tier != "thorough":
+        # every language: pairwise over all options, plus the two corners
         rows = pairwise(list(FLAGS), rng)
-        # the two corners are always present
         rows.insert(0, {n: False for n in FLAGS})
         rows.insert(1, dict({n: True for n in FLAGS}, **{"go.skip_runtime": False, "python.skip_runtime": False,
                                                          "java.skip_runtime": False, "typescript.skip_runtime": False}))
+        # Go only (cheap): 3-way covering of the Go options and the targeted vectors
+        seen = {tuple(r[n] for n in GO_FLAGS) for r in rows}
+        for r in covering(list(GO_FLAGS), 3, rng) + targeted_go_vectors(rng):
+            key = tuple(r[n] for n in GO_FLAGS)
+            if key in seen:
+                continue
+            seen.add(key)
+            row = dict({n: False for n in FLAGS}, **r)
+            row["_go_only"] = True
+            rows.append(row)
         return rows
-    others = pairwise(list(OTHER_FLAGS), rng)
     rows = []
     for k, bits in enumerate(itertools.product((False, True), repeat=len(GO_FLAGS))):
         row = dict(zip(GO_FLAGS, bits))
@@ -346,6 +403,8 @@ def lang_configs(flags, package_root):
     def sub(lang):
         return {n.split(".", 1)[1]: True for n in FLAGS if n.startswith(lang + ".") and flags[n]}
     go = dict(sub("go"), package_root=package_root)
+    if flags.get("_go_only"):
+        return [{"go": go}]
     return [{"go": go}, {"python": sub("python")}, {"java": sub("java")}, {"typescript": sub("typescript")},
             {"php": sub("php")}, {"jsonschema": {}}, {"openapi": {}}]
 
@@ -574,7 +633,7 @@ JAVA_CLASSES = [
     (r"incompatible types: .*", "incompatible-types"),
     (r"(variable|method|class|constructor) .* is already defined in .*|duplicate class: .*", "duplicate-declaration"),
     (r"duplicate case label|duplicate .*", "duplicate-case"),
-    (r"class .* is public, should be declared in a file named .*", "class-file-name-mismatch"),
+    (r"(class|enum|interface) .* is public, should be declared in a file named .*", "class-file-name-mismatch"),
     (r"';' expected|<identifier> expected|illegal start of .*|not a statement|class, interface, enum, or record expected|.* expected|unclosed .*|illegal character.*|reached end of file while parsing", "syntax-error"),
     (r"integer number too large.*|.*number too large.*", "constant-overflows"),
     (r"name clash: .*|.* have the same erasure.*", "duplicate-declaration"),
